@@ -9,6 +9,7 @@ import (
 	"io"
 	"math"
 	"reflect"
+	"verif/h/own"
 
 	"github.com/biogo/biogo/alphabet"
 	"github.com/biogo/biogo/feat"
@@ -16,7 +17,6 @@ import (
 	"github.com/biogo/biogo/io/featio/bed"
 	"github.com/biogo/biogo/io/featio/gff"
 	"github.com/biogo/biogo/seq"
-	"github.com/biogo/biogo/seq/linear"
 )
 
 // Bed is a BED12 record in plain data; narrower types use its leading fields.
@@ -209,7 +209,7 @@ func (g Gff) Make() feat.Feature {
 		case "Protein":
 			a = alphabet.Protein
 		}
-		return linear.NewSeq(g.SeqName, alphabet.BytesToLetters([]byte(g.Letters)), a)
+		return own.NewSeq(g.SeqName, alphabet.BytesToLetters([]byte(g.Letters)), a)
 	}
 	panic("gff kind")
 }
